@@ -31,6 +31,17 @@ CHECKS = {
             "Operand bytes beyond the second are covered by fills (C02 sweeps every position); callbacks run against "
             "binja_test_mocks as the repository's own tests do.",
             "DESIGN.md section 4, C01"),
+    "C03": ("exploration",
+            "exhaustive enumeration of structural encodings x an addressing-mode-separating state palette; the rendered token "
+            "stream is parsed and interpreted by documented addressing rules (reference), the lifted IL runs on the real Emulator "
+            "over a recording memory; read/write address sets are compared",
+            "Every structural shape (prefix x opcode x selector byte) in 2-3 states where BP, PX, PY, the pointer registers and I "
+            "are pairwise distinct (one state forces 8-bit wrap) is executed; data reads must lie within the bytes the text denotes "
+            "(plus address-formation bytes) and cover the denoted sources, written addresses must equal the denoted destination "
+            "bytes, so a render/lift disagreement on mode, width, direction or count is visible in every state.",
+            "Situations the documentation leaves open (multi-byte internal accesses crossing 0xFF, invalid BCD) are skipped and "
+            "counted; the reference (spec/operands.py, spec/isa.py) is written from README tables and is part of the trusted base.",
+            "DESIGN.md section 4, C03"),
     "C05": ("exploration",
             "exhaustive enumeration of encodings x boundary addresses x flag values x displacement/target palettes; static "
             "metadata of get_instruction_info compared with the PC reached by the real Emulator; inverse-pair runs",
